@@ -393,7 +393,66 @@ func Generate(r *vlib.Rng, p Profile) *Doc {
 		}
 	}
 	g.tags[fmt.Sprintf("hc=%d", g.hc)] = true
+	if r.Chance(1, 3) {
+		d.MBoxes = g.marginBoxes()
+		g.tags["margin-boxes"] = true
+	}
 	return d
+}
+
+// MarginAts are the margin boxes the generator adds (@bottom-center always shows
+// counter(page) "/" counter(pages)), in the order makeMarginBoxes generates them
+var MarginAts = []string{"top-left", "top-center", "top-right", "bottom-left", "bottom-right",
+	"left-top", "left-middle", "left-bottom", "right-top", "right-middle", "right-bottom",
+	"top-left-corner", "top-right-corner", "bottom-right-corner", "bottom-left-corner"}
+
+// marginBoxes draws 2-5 margin rules: some manipulate counters (page, author counters c / d,
+// rarely pages, which a margin context ignores) in their own rule, all show counter values.
+// One rule never has counter-set and counter-increment on the same counter (the implementation
+// applies them in the order reset, set, increment: CSS Lists 3 says reset, increment, set)
+func (g *gen) marginBoxes() []MBox {
+	r := g.r
+	n := r.Range(2, 5)
+	perm := make([]int, len(MarginAts))
+	for i := range perm {
+		perm[i] = i
+	}
+	for i := len(perm) - 1; i > 0; i-- {
+		j := r.Intn(i + 1)
+		perm[i], perm[j] = perm[j], perm[i]
+	}
+	var out []MBox
+	for i := 0; i < n; i++ {
+		b := MBox{At: MarginAts[perm[i]]}
+		names := []int{0, 0, 0, 2, 2, 3, 1}
+		used := map[int]bool{}
+		for k, m := 0, vlib.Pick(r, []int{0, 1, 1, 1, 2, 2, 3}); k < m; k++ {
+			nm := vlib.Pick(r, names)
+			if used[nm] {
+				continue
+			}
+			used[nm] = true
+			kind := r.Intn(5)
+			if kind == 0 || kind == 3 || kind == 4 {
+				b.Resets = append(b.Resets, MOp{nm, r.Range(0, 20)})
+			}
+			if kind == 1 || kind == 3 {
+				b.Sets = append(b.Sets, MOp{nm, r.Range(0, 50)})
+			}
+			if kind == 2 || kind == 4 {
+				v := r.Range(1, 100)
+				if r.Chance(1, 6) {
+					v = -r.Range(1, 9)
+				}
+				b.Incrs = append(b.Incrs, MOp{nm, v})
+			}
+		}
+		for k, m := 0, r.Range(1, 3); k < m; k++ {
+			b.Reads = append(b.Reads, MRead{Name: vlib.Pick(r, []int{0, 0, 0, 1, 2, 2, 3}), All: r.Chance(1, 4)})
+		}
+		out = append(out, b)
+	}
+	return out
 }
 
 // aimHeight chooses the height of the page content box so that, on the first page, the
